@@ -838,6 +838,27 @@ async fn consume_after_dropped_join() -> String {
     format!("consume={} {}", short(&r), c.life())
 }
 
+/// a join future that was polled and is then dropped while the actor runs does not harm the actor
+async fn join_future_polled_then_dropped_actor_survives() -> String {
+    let c = claim(78);
+    let mut o = Spawnable::spawn_owning(Probe::<78>::new());
+    let _ = o.send(Push(1)).await;
+    let ready = {
+        let mut j = Box::pin(o.join());
+        futures::FutureExt::now_or_never(&mut j).is_some()
+    };
+    settle().await;
+    let call = short(&o.call(Add(1, 2)).await);
+    let alive = alive(o.as_addr()).await;
+    let mut a = o.to_addr();
+    let s = full(&a.stop());
+    let w = full(&a.await);
+    format!(
+        "join_ready_at_once={ready} call_after_dropped_join={call} {alive} stop={s} await={w} {}",
+        c.life()
+    )
+}
+
 async fn join_failed_start() -> String {
     let c = claim(71);
     let mut o = Spawnable::spawn_owning(Probe::<71>::with(Mode::FailStart));
@@ -1287,6 +1308,7 @@ static SCENARIOS: &[Scenario] = scenarios![
     join_future_dropped_unpolled,
     join_futures_awaited_in_reverse,
     consume_after_dropped_join,
+    join_future_polled_then_dropped_actor_survives,
     join_failed_start,
     failed_start_detached,
     failed_start_builder_owning,
